@@ -9,6 +9,7 @@ import builtins as _bi
 
 from ..lib import coqlit as L
 from ..lib import e2
+from ..lib import lograce
 
 IMPORTS = ["Base", "Config", "Limiter", "Cond"]
 NAMES = ["a", "b", "G", "cfg", "x", "total", "len", "str", "uuid", "TriggerContext", "deep", "time_ns", "FrameCollector",
@@ -214,6 +215,98 @@ def watch_cases(ctx, world, n):
                 ctx.fail("watch on the module global G gives %r" % (g,), j, tag="scope")
 
 
+FAILING = {"missing": NameError, "1/0": ZeroDivisionError, "d['nope']": KeyError, "boom()": RuntimeError, "exit_()": SystemExit,
+           "cancel()": None, "interrupt()": KeyboardInterrupt, "genexit()": GeneratorExit}
+GOOD = ["a", "b + 1", "len(s)", "s", "G", "d['k']"]
+
+
+def isolation_cases(ctx, n):
+    """Log fields and metric value / label expressions: a failing expression (any BaseException) affects that expression
+    only - every other field / metric / label of the same hit comes out exactly as when the failing one is replaced by a
+    harmless expression, and every metric is still reported."""
+    import asyncio
+    from deep.api.tracepoint.trigger import LocationAction, Trigger, LineLocation, Location
+    from deep.api.tracepoint.tracepoint_config import MetricDefinition, LabelExpression
+    rng = ctx.rng
+
+    def raiser(exc):
+        def f():
+            raise exc
+        return f
+    loc = {"a": 5, "b": 2, "s": "txt", "d": {"k": 7}, "boom": raiser(RuntimeError("boom")), "exit_": raiser(SystemExit(3)),
+           "cancel": raiser(asyncio.CancelledError()), "interrupt": raiser(KeyboardInterrupt()), "genexit": raiser(GeneratorExit())}
+    glb = {"__name__": "hostmod", "G": 42}
+
+    def hit(world, action):
+        world.install([Trigger(LineLocation("m.py", 7, Location.Position.START), [action])])
+        start = len(world.log)
+        _, exc = world.event(e2.mk_frame("/app/m.py", "g", 7, dict(loc), f_globals=dict(glb)), "line")
+        return world.log[start:], exc
+    for _ in range(n):
+        exprs = [rng.choice(GOOD + list(FAILING)) for _k in range(rng.choice([2, 3, 4]))]
+        if not any(e in FAILING for e in exprs):
+            exprs[rng.randrange(len(exprs))] = rng.choice(list(FAILING))
+        if rng.random() < 0.5:
+            # ---- metrics: expression i is the value of metric i; the failing ones also serve as label expressions
+            world = e2.World(logger=False, spans=0, metrics=1)
+            as_label = rng.random() < 0.5
+            defs = []
+            for i, e in enumerate(exprs):
+                labels = [LabelExpression("lab", None, e)] if as_label else []
+                defs.append(MetricDefinition("m%d" % i, "GAUGE", labels, "a" if as_label else e))
+            action = LocationAction("tp-m", None, {"metrics": defs, "fire_count": "-1", "fire_period": "0"}, LocationAction.ActionType.Metric)
+            log, exc = hit(world, action)
+            calls = {p["name"]: p for w, _t, _i, p in log if w == "metric"}
+            j = dict(kind="metric " + ("labels" if as_label else "values"), expressions=exprs)
+            ctx.case(j, nontrivial=True, bucket="isolation metrics")
+            if exc is not None:
+                ctx.fail("the handler raised %r" % (exc,), j, tag="raised")
+            for i, e in enumerate(exprs):
+                c = calls.get("m%d" % i)
+                if c is None:
+                    ctx.fail("metric m%d (expression %r) was not reported; an expression of the same hit failed (%s)" % (
+                        i, e, [x for x in exprs if x in FAILING]), j, tag="metric-lost-after-failing-expression")
+                    continue
+                if e not in FAILING:
+                    want_v = 5.0
+                    if not as_label:
+                        try:
+                            want_v = float(eval(e, dict(glb), dict(loc)))
+                        except (TypeError, ValueError):
+                            want_v = 1
+                    want_l = {"lab": str(eval(e, dict(glb), dict(loc)))} if as_label else {}
+                    if c["value"] != want_v or c["labels"] != want_l:
+                        ctx.fail("metric m%d (expression %r) reported as value %r labels %r beside a failing expression; alone it is %r %r" % (
+                            i, e, c["value"], c["labels"], want_v, want_l), j, tag="expression-not-isolated")
+                elif not as_label and c["value"] != 1:
+                    ctx.fail("metric m%d: failing value expression %r reported as %r, not the default 1" % (i, e, c["value"]), j,
+                             tag="failing-metric-value")
+            world.clear_pending()
+        else:
+            # ---- log fields
+            world = e2.World(logger=True, spans=0, metrics=0)
+            tpl = " | ".join("{%s}" % e for e in exprs)
+            action = LocationAction("tp-l", None, {"fire_count": "-1", "fire_period": "0", "log_msg": tpl}, LocationAction.ActionType.Log)
+            log, exc = hit(world, action)
+            msgs = [p["msg"] for w, _t, _i, p in log if w == "log"]
+            j = dict(kind="log fields", template=tpl)
+            ctx.case(j, nontrivial=True, bucket="isolation log")
+            if exc is not None:
+                ctx.fail("the handler raised %r" % (exc,), j, tag="raised")
+            if len(msgs) != 1:
+                ctx.fail("%d messages for template %r with a failing field" % (len(msgs), tpl), j, tag="message-lost-after-failing-field")
+                continue
+            parts = msgs[0][len("[deep] "):].split(" | ")
+            if len(parts) != len(exprs):
+                ctx.fail("message %r does not have one part per field of %r" % (msgs[0], tpl), j, tag="expression-not-isolated")
+                continue
+            for e, part in zip(exprs, parts):
+                if e not in FAILING and part != str(eval(e, dict(glb), dict(loc))):
+                    ctx.fail("field {%s} rendered as %r beside a failing field; its value is %r" % (
+                        e, part, str(eval(e, dict(glb), dict(loc)))), j, tag="expression-not-isolated")
+            world.clear_pending()
+
+
 def run(ctx):
     import logging
     logging.getLogger("deep").setLevel(logging.CRITICAL + 1)
@@ -222,7 +315,10 @@ def run(ctx):
                 "the real evaluate_expression with generated locals/globals; (b) conditions whose evaluation yields one of 21 "
                 "values or raises one of 11 exceptions (Exception and BaseException kinds, messages '1', 'true', 'yes', 't') "
                 "and absent/blank conditions, through the real can_trigger; (c) hit histories mixing failing / false / true "
-                "conditions through the real handler; (d) watch lists with failing members vs each watch alone.")
+                "conditions through the real handler; (d) watch lists with failing members vs each watch alone; (e) metric value / "
+                "label expressions and log fields with failing members (8 kinds incl. SystemExit, KeyboardInterrupt, GeneratorExit, "
+                "CancelledError): the others unaffected, every metric still reported; (f) forced two-thread schedule: thread A "
+                "parked inside a field of its log message while thread B evaluates its own.")
     ctx.assumptions = [
         "expressions are side-effect free; the expression language itself (CPython eval) is trusted",
         "an error result is accepted in either wire form: error text set, or a value whose type is the raised class",
@@ -235,6 +331,8 @@ def run(ctx):
         gate_cases(ctx, world, 2000 if ctx.thorough else 400)
         budget_cases(ctx, world, clock, 1000 if ctx.thorough else 150)
         watch_cases(ctx, world, 300 if ctx.thorough else 50)
+        isolation_cases(ctx, 400 if ctx.thorough else 80)
+        lograce.run_cases(ctx, 60 if ctx.thorough else 12, "c10")
     finally:
         clock.restore()
         world.clear_pending()
